@@ -13,6 +13,13 @@ RLIMIT = int(os.environ.get("VERIF_RLIMIT", "0"))  # z3 resource limit per query
 TIMEOUT_MS = int(os.environ.get("VERIF_QUERY_TIMEOUT_MS", "120000"))  # wall-clock guard per query: exceeded = inconclusive, never a pass
 
 
+DEBUG_LABELS = bool(os.environ.get("VERIF_DEBUG_LABELS"))
+
+
+class NonDeterministic(BaseException):
+    """the harness did not rebuild the same decision sequence when re-executed: results would be meaningless"""
+
+
 class Inconclusive(Exception):
     """solver answered unknown / resource limit: never a verdict"""
 
@@ -24,6 +31,7 @@ class Explorer:
     def reset_all(self):
         self.solver = z3.Solver()
         self.trace, self.prefix, self.pending, self.pc = [], [], [], []
+        self.labels, self.prefix_labels = [], []
         self.obligations = []  # (name, condition) collected on the current path
         self.queries = {"sat": 0, "unsat": 0, "unknown": 0}
         self.solver_time = 0.0
@@ -40,6 +48,7 @@ class Explorer:
         if TIMEOUT_MS:
             self.solver.set("timeout", TIMEOUT_MS)
         self.trace, self.pc, self.obligations = [], [], []
+        self.labels = []
         self.fresh = 0
         from . import dist
 
@@ -91,19 +100,22 @@ class Explorer:
     def branch(self, c):
         if not is_sym(c):
             return _pybool(c)
-        c = z3.simplify(c)
+        # NOTE: no simplification-based shortcut here: z3.simplify orders arguments by AST id, which differs between
+        # re-executions, and a condition folded to a constant in one run but decided by the solver in another would
+        # desynchronise the decision trace.  Only literal constants are skipped.
         if z3.is_true(c):
             return True
         if z3.is_false(c):
             return False
         i = len(self.trace)
+        lab = 0
         if i < len(self.prefix):
             d = self.prefix[i]
         else:
             can_t = self.sat(c)
             can_f = self.sat(z3.Not(c))
             if can_t and can_f:
-                self.pending.append(self.trace + [False])
+                self.pending.append((self.trace + [False], self.labels + [lab]))
                 d = True
             elif can_t:
                 d = True
@@ -112,6 +124,7 @@ class Explorer:
             else:
                 raise PathAbort()
         self.trace.append(d)
+        self.labels.append(lab)
         self.assume(c if d else z3.Not(c))
         return d
 
@@ -122,11 +135,14 @@ class Explorer:
         i = len(self.trace)
         if i < len(self.prefix):
             d = self.prefix[i]
+            if not isinstance(d, int) or isinstance(d, bool) or d >= n:
+                raise NonDeterministic(f"non-deterministic harness: replayed decision {d!r} at position {i} does not fit a {n}-ary choice (prefix={self.prefix})")
         else:
             for alt in range(n - 1, 0, -1):
-                self.pending.append(self.trace + [alt])
+                self.pending.append((self.trace + [alt], self.labels + [("choose", n)]))
             d = 0
         self.trace.append(d)
+        self.labels.append(("choose", n))
         return d
 
     def concretize_int(self, x, lo, hi):
@@ -141,10 +157,10 @@ class Explorer:
     # ---------------------------------------------------------------- driver
     def run(self, fn, prefixes=None):
         """run fn() over all paths (optionally only those extending the given decision prefixes)"""
-        self.pending = [list(p) for p in (prefixes or [[]])]
+        self.pending = [(list(p), []) for p in (prefixes or [[]])]
         n = 0
         while self.pending:
-            self.prefix = self.pending.pop()
+            self.prefix, self.prefix_labels = self.pending.pop()
             self._new_path()
             try:
                 fn()
